@@ -220,7 +220,7 @@ class C16Engine(Engine):
             pool = cls(hmod.quick, **kw) if case["base"] == "SimpleTaskPool" else cls(**kw)
             if case.get("neighbour"):
                 from asyncio_taskpool import TaskPool as _TP
-                nb = Sess(pool if case["neighbour"].startswith("same") else _TP(name="neighbour"), width=80)
+                nb = Sess(pool if case["neighbour"].startswith("same") else _TP(name="neighbour"), width=997)    # a much wider terminal
                 await nb.start()
                 if case["neighbour"].endswith("waiting"):
                     nb.feed("until-closed")
@@ -263,6 +263,19 @@ class C16Engine(Engine):
                     if len(r) != 1:
                         fail("help/reply-count", f"{cmd} {h}: {len(r)} replies")
                         continue
+                    # laid out for *this* client's terminal: from 80 columns on argparse never needs to overrun the width with a line
+                    # it could have broken (calibrated on the unchanged tree for widths 80..1000)
+                    wd = case["width"]
+                    if isinstance(wd, int) and 80 <= wd <= 1000:
+                        for line in r[0].decode().split("\n"):
+                            if len(line) > wd and len(line.strip().split(" ")) > 1:
+                                fail("help/laid-out-for-another-width", f"{cmd} {h}: width {wd}, line of {len(line)} characters")
+                                break
+                    # ... and from 200 columns on the usage of every command fits on its first line (the longest is ~130 characters)
+                    if isinstance(wd, int) and 200 <= wd <= 1000:
+                        first_block = r[0].decode().split("\n\n")[0].strip().split("\n")
+                        if len(first_block) > 1 and first_block[0].startswith("usage:") and sum(len(x.strip()) + 1 for x in first_block) < wd - 2:
+                            fail("help/laid-out-for-another-width", f"{cmd} {h}: width {wd}, usage broken into {len(first_block)} lines")
                     text = norm(r[0].decode())
                     if ("usage:" + cmd) not in text:
                         fail("help/no-usage", f"{cmd} {h}: {r[0][:120]!r}")
